@@ -12,3 +12,12 @@ import (
 const HooksEnabled = false
 
 func setUnsubDelay(s *server.Service, d time.Duration) {}
+
+// VerifEntry mirrors rescache.VerifEntry when hooks are unavailable.
+type verifEntryStub struct{}
+
+// CacheSnapshot returns nil without hooks.
+func (w *World) CacheSnapshot() []verifEntryStub { return nil }
+
+// ConnSnapshot returns nil without hooks.
+func (w *World) ConnSnapshot() []verifEntryStub { return nil }
